@@ -550,6 +550,177 @@ def c14_cli(ctx, cases):
     return viol[:4], []
 
 
+# ---- known findings (never written at run time)
+
+def known_entries(pid):
+    return [k for k in vlib.load_known().get("known", []) if k.get("property") == pid]
+
+
+def known_tc(pid):
+    """known finding of class TC (a participant with own choices instructs a course): defects D2 (C02) / D3 (C03)"""
+    ents = [k for k in known_entries(pid) if k.get("class") == "TC"]
+    if not ents:
+        return None
+    return ents[0]["what"]
+
+
+def corpus_cases(ctx, stream):
+    p = os.path.join(vlib.VERIF, "corpus", "%s_%s.json" % (ctx.pid, stream))
+    if not os.path.exists(p):
+        return []
+    s, cs = run_stream(ctx, stream, ["--replay", p, "--shards", 1], stream, stream)
+    for c in cs:
+        c["corpus"] = True
+    return cs
+
+
+# ---- C02: optimality without rooms (certified witnesses from the exact search of the harness)
+
+def spec_c02(c):
+    if c["stream"] == "tree" and has(c, TREE, "class", "returned") and not has(c, TREE, "c09"):
+        return "C02: the generic engine loses the best leaf of a bound-consistent tree (the optimality argument composes C09 with the node bounds)"
+    if c["stream"] != "solve" or not has(c, SOLVE, "class") or c["meta"]["inst"]["rooms"] is not None:
+        return None
+    if not has(c, SOLVE, "nobetter"):
+        if c["meta"]["result"] is None:
+            return "C02: 'no feasible solution' reported although a hard-feasible assignment exists (witness checked by hard_okb in Coq)"
+        return "C02: the reported score is below the score of a hard-feasible assignment (witness checked by hard_okb/score_of in Coq)"
+    if has(c, SOLVE, "found") and not has(c, SOLVE, "hard", "score"):
+        return "C02: the reported assignment is not hard-feasible or its score is not the recomputed one"
+    return None
+
+
+def known_c02(c, w):
+    if c["stream"] == "solve" and has(c, SOLVE, "tc") and "hard-feasible assignment" in w and has(c, SOLVE, "accepted", "result"):
+        return known_tc("C02")
+    return None
+
+
+def streams_c02(ctx, scale, off):
+    s1, c1 = solve_stream(ctx, ctx.seed + off, 260 * scale, rooms=0, scheds=2, max_c=5, max_p=7)
+    s2, c2 = node_stream(ctx, ctx.seed + off + 1, 150 * scale, rooms=0)
+    s3, c3 = tree_stream(ctx, ctx.seed + off + 2, 40 * scale, panics=0, dfs=100, max_nodes=10)
+    cs = corpus_cases(ctx, "solve") if off == 0 else []
+    return [s1, s2, s3], cs + c1 + c2 + c3
+
+
+# ---- C03: the same instance under different worker counts / schedules
+
+def c03_extra(ctx, cases):
+    viol, known = [], []
+    groups = {}
+    for c in cases:
+        if c["stream"] == "solve" and has(c, SOLVE, "class", "returned") and not c.get("corpus"):
+            groups.setdefault((c["meta"]["id"], c["meta"]["variant"], c["file"][:11]), []).append(c)
+    corp = [c for c in cases if c.get("corpus")]
+    if corp:
+        groups[("corpus",)] = corp
+    ncomp = 0
+    for key, cs in groups.items():
+        outs = {(c["meta"]["result"] is not None, (c["meta"]["result"] or {}).get("score")) for c in cs}
+        ncomp += 1
+        if len(outs) > 1:
+            if all(has(c, SOLVE, "tc") for c in cs) and known_tc("C03") and all(has(c, SOLVE, "accepted", "result") for c in cs):
+                known.append(known_tc("C03"))
+                continue
+            a = cs[0]
+            b = [c for c in cs if (c["meta"]["result"] or {}).get("score") != (a["meta"]["result"] or {}).get("score") or
+                 (c["meta"]["result"] is None) != (a["meta"]["result"] is None)][0]
+            rp = ctx.replay({"kind": "failing-input", "stream": "solve", "what": "C03: verdict/score differ between two schedules of the same instance",
+                             "case": a["meta"], "other_schedule": b["meta"]})
+            viol.append(("C03: verdict/score of caobab::solve differ between schedules of one instance: %s workers -> %s, %s workers -> %s" % (
+                a["meta"]["k"], a["meta"]["result"] and a["meta"]["result"]["score"], b["meta"]["k"], b["meta"]["result"] and b["meta"]["result"]["score"]), rp, False))
+    # the real binary with different --num-threads
+    count = 40 if ctx.tier == "quick" else 300
+    metas, recs = cli_records(ctx, ctx.seed + 7, count, [dict(threads=1, rooms="list"), dict(threads=2, rooms="list"), dict(threads=16, rooms="list")])
+    byid = {}
+    for r in recs:
+        byid.setdefault(r["meta"]["id"], []).append(r)
+    ncli = 0
+    for i, rs in byid.items():
+        if not (rs[0]["code"] & CLI["class"]):
+            continue
+        ncli += 1
+        outs = {(r["run"]["rc"], r["out"][1] if isinstance(r["out"], tuple) else None) for r in rs}
+        if len(outs) > 1:
+            if (rs[0]["code"] & CLI["tc"]) and known_tc("C03"):
+                known.append(known_tc("C03"))
+                continue
+            viol.append(cli_violation(ctx, rs[0], "C03: exit status / quality.solution_score differ between --num-threads 1, 2, 16: %s" % sorted(outs, key=str)))
+    ctx.extra_cov = {"schedule_groups_compared": ncomp, "cli_runs": {"runs": len(recs), "instances_compared_across_thread_counts": ncli}}
+    return viol[:4], known
+
+
+def spec_c03(c):
+    if c["stream"] == "tree" and has(c, TREE, "class", "returned") and not has(c, TREE, "c09"):
+        return "C03: on a bound-consistent tree the result depends on the schedule (differs from the maximum of the tree)"
+    return None
+
+
+def streams_c03(ctx, scale, off):
+    s1, c1 = solve_stream(ctx, ctx.seed + off, 150 * scale, rooms=2, scheds=5, max_c=5, max_p=8, brute=1)
+    s2, c2 = tree_stream(ctx, ctx.seed + off + 1, 40 * scale, panics=0, dfs=100, max_nodes=10)
+    cs = corpus_cases(ctx, "solve") if off == 0 else []
+    return [s1, s2], cs + c1 + c2
+
+
+# ---- C17: paired runs with / without rooms
+
+def c17_extra(ctx, cases):
+    viol = []
+    groups = {}
+    for c in cases:
+        if c["stream"] == "solve" and has(c, SOLVE, "class", "returned"):
+            groups.setdefault((c["meta"]["id"], c["file"][:11]), []).append(c)
+    npairs = nupper = nnb = 0
+    for key, cs in groups.items():
+        base = [c for c in cs if c["meta"]["variant"] == "base"]
+        if not base:
+            continue
+        bf = base[0]["meta"]["brute_force"]
+        tc = has(base[0], SOLVE, "tc")
+        for c in cs:
+            v = c["meta"]["variant"]
+            res = c["meta"]["result"]
+            if v == "nonbinding_rooms" and has(c, SOLVE, "nonbinding"):
+                nnb += 1
+                twin = [b for b in base if b["meta"]["sched"] == c["meta"]["sched"] and b["meta"]["k"] == c["meta"]["k"]] or base
+                if c["meta"]["sched"] == "first" or not tc:
+                    b = twin[0]
+                    npairs += 1
+                    if (res is None) != (b["meta"]["result"] is None) or (res and res["score"] != b["meta"]["result"]["score"]):
+                        rp = ctx.replay({"kind": "failing-input", "stream": "solve", "what": "C17: a room list that cannot bind changes verdict/score",
+                                         "case": c["meta"], "run_without_rooms": b["meta"]})
+                        viol.append(("C17: with a room list that cannot bind (nonbindingb evaluated in Coq) verdict/score differ from the run "
+                                     "without rooms: %s vs %s" % (res and res["score"], b["meta"]["result"] and b["meta"]["result"]["score"]), rp, False))
+            if v != "base" and res is not None:
+                if isinstance(bf, dict):
+                    nupper += 1
+                    if res["score"] > bf["score"]:
+                        rp = ctx.replay({"kind": "failing-input", "stream": "solve", "what": "C17: score with rooms exceeds the optimum without rooms",
+                                         "case": c["meta"], "optimum_without_rooms": bf})
+                        viol.append(("C17: score %s with rooms exceeds the exact optimum %s without room limits" % (res["score"], bf["score"]), rp, False))
+                elif bf == "no feasible assignment":
+                    nupper += 1
+                    rp = ctx.replay({"kind": "failing-input", "stream": "solve", "what": "C17: solution with rooms although none exists without",
+                                     "case": c["meta"]})
+                    viol.append(("C17: a solution is reported with rooms although no hard-feasible assignment exists at all", rp, False))
+    ctx.extra_cov = {"pairs_nonbinding_vs_none_compared": npairs, "nonbinding_lists_confirmed_in_coq": nnb, "runs_with_rooms_compared_with_exact_optimum": nupper}
+    return viol[:4], []
+
+
+def spec_c17(c):
+    if c["stream"] == "solve" and has(c, SOLVE, "class", "found") and not has(c, SOLVE, "hard", "score"):
+        return "C17: the assignment reported with a room list is not hard-feasible or its score is not the recomputed one (so it may exceed the optimum)"
+    return None
+
+
+def streams_c17(ctx, scale, off):
+    s1, c1 = solve_stream(ctx, ctx.seed + off, 110 * scale, rooms=0, scheds=2, c17=1, max_c=5, max_p=7)
+    s2, c2 = node_stream(ctx, ctx.seed + off + 1, 160 * scale, rooms=1, max_c=9, max_p=10)
+    return [s1, s2], c1 + c2
+
+
 def spec_none(c):
     return None
 
@@ -560,7 +731,7 @@ def streams_none(ctx, scale, off):
 
 def streams_node_solve(rooms):
     def f(ctx, scale, off):
-        s1, c1 = node_stream(ctx, ctx.seed + off, 250 * scale, rooms=rooms)
+        s1, c1 = node_stream(ctx, ctx.seed + off, 250 * scale, rooms=rooms, max_c=(9 if rooms == 1 else 6))
         s2, c2 = solve_stream(ctx, ctx.seed + off + 1, 120 * scale, rooms=rooms)
         return [s1, s2], c1 + c2
     return f
@@ -595,6 +766,35 @@ RULE_TREE = "seeded synthetic subproblem trees (1-12 nodes, chains and bushy, al
             "wake-ups, exhaustive DFS over all schedules of trees <= 4 nodes with 2 workers; non-trivial = distinct (tree, schedule) accepted"
 
 REGISTRY = {
+
+    "C02": dict(mk(spec_c02, streams_c02, RULE_NS + "; no room lists; exact optimum by exhaustive search in the harness (<= 5 courses, <= 7 "
+                   "participants), its witness assignment certified in Coq (hard_okb, score_of)", known_fn=known_c02), allow_axioms=(),
+        explanation="C02_partial: for every valid instance without rooms, every worker count and interleaving, the final best score is >= the "
+                    "score of every hard-feasible assignment that keeps the instructors with choices teaching; C02_noTC: full optimality and "
+                    "'no solution only if none exists' outside class TC; C02_refuted: the defect D2 on the faithful model (known finding). "
+                    "Hypotheses: no node run ends in a panic site (C10) or Overflow (C07).  Every solve is replayed through the model; a better "
+                    "hard-feasible assignment found by the exact search is a violation (outside TC) certified inside Coq.",
+        trusted_base=["modelled, not verified: caobab.rs, bab.rs, hungarian.rs; the exact search of the harness is only a generator of witnesses "
+                      "(each witness is checked in Coq); absence of a witness for larger instances is not a proof"],
+        assumptions=["known finding: class TC (instances in which a participant with own choices instructs a course), defect D2"]),
+    "C03": dict(mk(spec_c03, streams_c03, RULE_NS + "; every instance solved under 5 schedules (1 worker default; 2-4 workers random/PCT, spurious "
+                   "wake-ups) and compared; synthetic trees as in C09; CLI with --num-threads 1, 2, 16", known_fn=None, extra_fn=c03_extra), allow_axioms=(),
+        explanation="C03_engine: on bound-consistent trees any two final states (any worker counts, any interleavings) agree on verdict and score; "
+                    "C03_noTC: the same for caobab::solve without rooms outside class TC (via C02_noTC, C01, C08); C03_refuted: defect D3 (two "
+                    "recorded histories of one TC instance with scores 200000 / 199999, replayed inside Coq).  All histories are replayed "
+                    "through the model; results of different schedules of one instance are compared.",
+        trusted_base=["modelled, not verified: bab.rs, caobab.rs; OS scheduling replaced by the shim's schedules; with rooms the statement rests "
+                      "on correspondence + C09 (bound consistency of the room-stage tree is not proved)"],
+        assumptions=["known finding: class TC, defect D3"]),
+    "C17": dict(mk(spec_c17, streams_c17, "seeded instances, each solved without rooms, with a room list that cannot bind (confirmed by nonbindingb "
+                   "in Coq) and with an arbitrary list derived from it; 1 worker default schedule and 2-4 workers random; exact optimum without "
+                   "rooms by exhaustive search", extra_fn=c17_extra), allow_axioms=(),
+        explanation="C17_upper: with any room list the reported score (every schedule) is the score of a hard-feasible assignment, hence never "
+                    "above the optimum without rooms; C17_nonbinding_gate: a list that cannot bind lets every assignment within the size "
+                    "maxima pass the room gate.  Paired runs compared; the histories are replayed through the model.",
+        trusted_base=["modelled, not verified: caobab.rs room stage; node-level equality run(Some rooms) = run(None) for non-binding lists is "
+                      "established by correspondence (both runs replayed against the model), not by a theorem"],
+        assumptions=["effective sizes in binary32 (Flocq) as in C06"]),
 
     "C10": dict(mk(spec_c10, streams_node_solve(2), RULE_NS + "; CLI stream: the real binary (debug build) on generated simple-format files incl. "
                    "over-subscribed and infeasible instances, 1/2/4 threads, --rooms / --rooms-file, --print", extra_fn=c10_cli), allow_axioms=(),
